@@ -73,10 +73,10 @@ validations:
         minCount: 1
   v-linebreak:
     targetClass: ex.T
-    message: "a message that ends with a line break\n"
+    message: "a message that ends with a line break\\n"
     propertyConstraints:
       ex.q:
-        pattern: "^[a-z,]+$"
+        in: [ "fine\\n", ok, "ok,fine", none, toolong ]
   v-rego-twins:
     targetClass: ex.T
     message: two embedded checks that differ in nothing but their code
